@@ -202,12 +202,17 @@ func (m *Minifier) apply(vis *minifyVisitor) (madeReplacements bool) {
 	if len(replacements) == 0 {
 		return false
 	}
-	// sort by depth
+	// sort by depth, then by enclosing type name; the candidates come out of a map, so ties
+	// are broken by the position of the first occurrence in the document - otherwise the
+	// fragment names (and with them the minified text) would follow map iteration order
 	slices.SortStableFunc(replacements, func(a, b *stats) int {
-		if a.depth == b.depth {
-			return strings.Compare(b.enclosingTypeName, a.enclosingTypeName)
+		if a.depth != b.depth {
+			return b.depth - a.depth
 		}
-		return b.depth - a.depth
+		if c := strings.Compare(b.enclosingTypeName, a.enclosingTypeName); c != 0 {
+			return c
+		}
+		return a.items[0].selectionSet - b.items[0].selectionSet
 	})
 	for _, s := range replacements {
 		m.replaceItems(s)
